@@ -902,6 +902,10 @@ fn install_panic_hook() {
     });
 }
 
+/// More polls than this at one virtual instant is a task waking itself for ever (a healthy case
+/// needs a few per datagram).
+pub const LIVELOCK_POLLS: u64 = 400_000;
+
 pub fn take_panics() -> Vec<String> {
     PANIC_LOG.with(|l| std::mem::take(&mut *l.borrow_mut()))
 }
@@ -952,7 +956,23 @@ where
                 let wb = warn_buf.clone();
                 // connection uids come from a process-global counter; renumber them per case
                 let mut uid_map: BTreeMap<u64, u64> = BTreeMap::new();
+                // livelock guard: connection-task polls while virtual time stands still
+                let mut polls_at: (Us, u64) = (0, 0);
                 librqbit_utp::verif::set_thread_sink(Some(Box::new(move |ev| {
+                    if let librqbit_utp::verif::VerifEvent::PollStart { id, .. } = ev {
+                        let t = log2.clock.now_us();
+                        if polls_at.0 == t {
+                            polls_at.1 += 1;
+                            if polls_at.1 == LIVELOCK_POLLS {
+                                panic!(
+                                    "harness: livelock: {} polls of connection tasks (last: {}<-{} recv id {}) without virtual time advancing past {} us",
+                                    LIVELOCK_POLLS, id.local, id.remote, id.conn_id_recv, t
+                                );
+                            }
+                        } else {
+                            polls_at = (t, 1);
+                        }
+                    }
                     // flush captured WARNs first so they keep their place in the order
                     for w in wb.lock().drain(..) {
                         log2.push(Ev::Warn(w));
